@@ -14,7 +14,9 @@ import gc
 import hashlib
 import json
 import random
+import sys
 import tracemalloc
+from collections import deque, OrderedDict, defaultdict
 
 from .. import worlds
 from ..canon import outcome_of, immutable_part, diff_dumps
@@ -22,7 +24,7 @@ from ..seams import (Stepper, Ambient, UserFuncs, SimInterrupt, SimBudget)
 
 ID = 'C05'
 USES_INDEX = True
-SOAK_EVERY = {'quick': 250, 'thorough': 300}
+SOAK_EVERY = {'quick': 60, 'thorough': 100}
 BUDGET = {
     'quick': {'runs': 1500, 'wall': 300, 'chunk': 25, 'shrink': 200},
     'thorough': {'runs': 60000, 'wall': 2400, 'chunk': 100, 'shrink': 400},
@@ -31,19 +33,22 @@ RULE = ('each run = one seeded acyclic model (half of them multi-sheet and '
         'with stale cached values) and a seeded schedule of (model copy, '
         'evaluator, cell) evaluations with repetitions over 1-3 copies and '
         '1-3 evaluators per copy, some created mid-schedule, optional '
-        'interrupt / transient / clock-jump faults; every 250th run is a soak '
+        'interrupt / transient / clock-jump faults; every 60th run (100th in thorough) is a soak '
         'of N identical evaluation rounds with object-count sampling; '
         'non-trivial = some formula cell is evaluated at least twice or by '
         'two evaluators; distinct = different sequence of (copy, evaluator, '
         'cell level, fault fired)')
 ASSUMPTIONS = [
     'isolated outcome = fresh copy of the same model, fresh evaluator of the same kind, only that cell evaluated',
-    'footprint = len(gc.get_objects()) after gc.collect() (exactly reproducible) corroborated by tracemalloc bytes; last third of the soak only; bound 64 objects / 256 KiB independent of N',
+    'footprint = len(gc.get_objects()) and total len() of all lists/dicts/sets after gc.collect() (both exactly reproducible) corroborated by tracemalloc bytes; last third of the soak only; bounds 64 objects / 64 container slots / 256 KiB independent of N',
+    'soaks in which asynchronous interrupts were injected record their growth but are not judged (an abort is not an evaluation in the sense of the statement)',
     'generated text constants cannot be parsed as partial dates (Excel itself is clock dependent there)',
     'an interrupted or transiently failed call makes no claim about its own result',
 ]
+_CONTAINERS = (list, dict, set, deque, OrderedDict, defaultdict)
 SAFETY_STEPS = 2_000_000
 OBJ_BOUND = 64
+SLOT_BOUND = 64
 BYTE_BOUND = 256 * 1024
 
 
@@ -107,12 +112,27 @@ def gen_case(seed, tier='quick', index=1):
 
 
 def gen_soak(rng, seed, tier):
-    world = worlds.gen_world(rng, n_formulas=rng.randint(2, 5), stale=False,
+    world = worlds.gen_world(rng, n_formulas=rng.randint(2, 7), stale=False,
                              userfuncs=False)
     formulas = [a for a in world['order'] if world['level'][a] > 0]
-    targets = [rng.choice(formulas) for _ in range(rng.randint(1, 4))]
-    n = rng.choice([600, 900, 1500]) if tier == 'quick' else rng.choice(
-        [900, 1500, 3000, 6000])
+    if rng.random() < 0.4:
+        # a cell whose evaluation raises (Python-level failure) every round,
+        # and one that depends on it
+        dep = rng.choice(world['order'])
+        for k, f in enumerate(['=NOSUCHFN({d})+1', '={prev}*2']):
+            a = f'Sheet1!X{k + 1}'
+            world['cells'][a] = f.format(
+                d=dep, prev='Sheet1!X1')
+            world['order'].append(a)
+            world['level'][a] = world['level'].get(dep, 0) + 1 + k
+            world['deps'][a] = [dep] if k == 0 else ['Sheet1!X1']
+            formulas.append(a)
+    if rng.random() < 0.5:
+        targets = list(formulas)
+    else:
+        targets = [rng.choice(formulas) for _ in range(rng.randint(1, 4))]
+    n = rng.choice([300, 450, 600]) if tier == 'quick' else rng.choice(
+        [450, 900, 1500, 3000])
     knobs = {'rounds': n, 'evaluators': rng.choice([1, 2]),
              'interrupt_every': rng.choice([0, 0, 3]),
              'interrupt_frac': round(rng.uniform(0.1, 0.9), 2),
@@ -273,7 +293,7 @@ def soak_loop(evaluate_of, targets, rounds, interrupt_every, steps_for):
     iteration.  Returns (object counts at N/3, 2N/3, N; bytes grown in the
     last third; running hash; calls; interrupts fired)."""
     marks = (rounds // 3, 2 * rounds // 3, rounds)
-    counts = []
+    counts, slots, blocks = [], [], []
     h = hashlib.blake2b(digest_size=8)
     calls = fired = 0
     base_bytes = 0
@@ -306,14 +326,21 @@ def soak_loop(evaluate_of, targets, rounds, interrupt_every, steps_for):
             v = None
         if r in marks:
             gc.collect()
-            counts.append(len(gc.get_objects()))
+            objs = gc.get_objects()
+            counts.append(len(objs))
+            own = (id(counts), id(slots), id(blocks), id(objs))
+            slots.append(sum(len(o) for o in objs
+                             if type(o) in _CONTAINERS
+                             and id(o) not in own))
+            blocks.append(sys.getallocatedblocks())
+            objs = None
             if r == marks[1]:
                 tracemalloc.start()
                 base_bytes = tracemalloc.get_traced_memory()[0]
             elif r == marks[2]:
                 grown = tracemalloc.get_traced_memory()[0] - base_bytes
                 tracemalloc.stop()
-    return counts, grown, h.hexdigest(), calls, fired
+    return counts, grown, h.hexdigest(), calls, fired, slots, blocks
 
 
 def run_soak(case):
@@ -328,11 +355,11 @@ def run_soak(case):
         tracemalloc.stop()
     with Ambient(case['seed']):
         # self-check: the loop itself must read 0 against a no-op evaluator
-        counts0, grown0, _, _, _ = soak_loop(
+        counts0, grown0, _, _, _, slots0, _ = soak_loop(
             lambda r: _noop_evaluate, targets, 90, 0, None)
-        if counts0[2] - counts0[1] != 0:
+        if counts0[2] - counts0[1] != 0 or slots0[2] - slots0[1] != 0:
             raise RuntimeError(
-                f'soak harness allocates on its own: {counts0}')
+                f'soak harness allocates on its own: {counts0} {slots0}')
         model = worlds.world_model(world)
         nev = knobs.get('evaluators', 1)
         evs = [Evaluator(model) for _ in range(nev)]
@@ -350,10 +377,14 @@ def run_soak(case):
                 evs[r % nev] = Evaluator(model)
             return evs[r % nev].evaluate
 
-        counts, grown, digest, calls, fired = soak_loop(
+        counts, grown, digest, calls, fired, slots, blocks = soak_loop(
             evaluate_of, targets, rounds, knobs.get('interrupt_every', 0),
             lambda t: steps[t])
     d_obj = counts[2] - counts[1]
+    d_slots = slots[2] - slots[1]
+    d_blocks = blocks[2] - blocks[1]
+    stats['max:soak_container_slot_growth_last_third'] = max(d_slots, 0)
+    stats['max:soak_allocated_block_growth_last_third'] = max(d_blocks, 0)
     stats['ops'] = calls
     stats['soak_evaluations'] = calls
     stats['max:soak_object_growth_last_third'] = max(d_obj, 0)
@@ -365,7 +396,14 @@ def run_soak(case):
                 digest, fired])
     # bytes are corroboration only (tracemalloc sees interpreter noise), the
     # deterministic object count decides
-    if d_obj > OBJ_BOUND:
+    if fired:
+        # An asynchronous abort is not an evaluation in the sense of the
+        # statement (and a cycle through a half-built pandas/numpy object
+        # array left behind by it cannot be avoided by the library): growth
+        # under interrupts is recorded, not judged.
+        stats['max:soak_object_growth_with_interrupts'] = max(d_obj, 0)
+        stats['soaks_with_interrupts'] = 1
+    elif d_obj > OBJ_BOUND:
         viol = {'tag': 'memory-accumulates',
                 'detail': {'rounds': rounds, 'evaluations': calls,
                            'objects_at_thirds': counts,
@@ -374,6 +412,14 @@ def run_soak(case):
                            'per_evaluation': round(
                                d_obj / max(1, calls / 3), 2),
                            'bound_objects': OBJ_BOUND}}
+    elif d_slots > SLOT_BOUND:
+        viol = {'tag': 'memory-accumulates',
+                'detail': {'rounds': rounds, 'evaluations': calls,
+                           'container_slots_at_thirds': slots,
+                           'slot_growth_last_third': d_slots,
+                           'why': 'some list/dict/set keeps growing (its '
+                           'elements need not be GC-tracked objects)',
+                           'bound_slots': SLOT_BOUND}}
     elif grown > BYTE_BOUND:
         viol = {'tag': 'memory-accumulates',
                 'detail': {'rounds': rounds, 'evaluations': calls,
@@ -394,10 +440,15 @@ def reducers(case):
     from . import c04
     if case.get('kind') == 'soak':
         k = case['knobs']
-        if k['rounds'] > 300:
+        if k['rounds'] > 150:
             c = copy.deepcopy(case)
-            c['knobs']['rounds'] = max(300, k['rounds'] // 2)
+            c['knobs']['rounds'] = max(150, k['rounds'] // 2)
             yield c
+        if len(case['ops']) > 1:
+            for i in range(len(case['ops'])):
+                c = copy.deepcopy(case)
+                del c['ops'][i]
+                yield c
         for key, val in (('evaluators', 1), ('interrupt_every', 0),
                          ('new_evaluator_every', 0)):
             if k.get(key) != val:
